@@ -1,5 +1,6 @@
 """C11 - on-chain conclusions depend only on the chain, not on how it was delivered (structural part)."""
 from engine import *
+import json
 import chainrules
 
 MONP = 'lightning::chain::channelmonitor::'
@@ -389,6 +390,57 @@ def r11g(F):
 		out.append(Result('11.g', ok, ('ok:' if ok else 'state-dependent:') + 'reset-independent-of-channel-state', 'the funding confirmation height / SCID / block hash are cleared whenever the funding has 0 confirmations, independently of whether channel_ready was already sent (conditions: %s)%s' % ([k[:50] for sb, k, ln in conds], '' if not bad else '; depends on channel state: %s - a channel still waiting for its depth keeps a stale height after the funding is reorged out and later sends channel_ready for a transaction that is not in the chain' % [b[:60] for b in bad]), len(conds) + 1, where=F.where(db.name, db.line_of(first))))
 	return out
 
+def r11h(F):
+	"""(i) the "funding not confirmed yet" test of check_for_funding_tx_confirmed reads a field that EVERY retraction site clears (the main
+	funding and each pending splice candidate): otherwise a transaction reorganised out and confirmed again in the competing chain is never
+	recognised again; (ii) the confirmation bookkeeping of a funding scope, including the raised depth of a coinbase funding, is written by
+	the channel writer itself (12.b own-body coverage), so a restarted node concludes what a running node concludes"""
+	out = []
+	cfn = CH + 'ChannelContext::check_for_funding_tx_confirmed'
+	cu = F.func(cfn)
+	sets = [b for b, si in sites_field_write(cu, 'funding_tx_confirmation_height')]
+	guard_field = None
+	for b in sets:
+		for sb, k, ln in control_conds(cu, b):
+			if 'funding_tx_confirmation_height' in k:
+				guard_field = 'funding_tx_confirmation_height'
+			elif 'funding_tx_confirmed_in' in k and guard_field is None:
+				guard_field = 'funding_tx_confirmed_in'
+	if not sets or guard_field is None:
+		out.append(Result('11.h', False, 'anchor:not-yet-confirmed-test', 'check_for_funding_tx_confirmed: the not-yet-confirmed test guarding the confirmation store was not found', where=F.where(cfn)))
+	else:
+		# all sites clearing either field, grouped by function and by the object (place base) they clear it on
+		groups = {}
+		for fld in ('funding_tx_confirmation_height', 'funding_tx_confirmed_in'):
+			keys = [k for k in F.fieldacc if k.endswith('.' + fld) and 'ln::channel::FundingScope' in k]
+			fns = sorted({r[0] for k in keys for r in F.fieldacc[k] if r[1].startswith('w')})
+			for fn_ in fns:
+				fu = F.func(fn_)
+				ex = Expr(fu)
+				for b, si in sites_field_write(fu, fld):
+					if b not in fu.reach([0]):
+						continue
+					st = fu.blocks[b]['s'][si]
+					rv = st[2]
+					e = ex.of_rvalue(rv)
+					cleared = (e[0] == 'const' and e[1] == 0) or (e[0] == 'agg' and e[2] == 'None')
+					if cleared:
+						base = json.dumps(st[1][:-1])
+						groups.setdefault((fn_, base), set()).add(fld)
+		bad = [(fn_.rsplit('::', 1)[-1], flds) for (fn_, base), flds in groups.items() if guard_field not in flds]
+		ok = len(groups) >= 2 and not bad
+		out.append(Result('11.h', ok, ('ok:' if ok else 'stale:') + 'reconfirmation-test-field-cleared-everywhere', 'check_for_funding_tx_confirmed treats a funding as unconfirmed by `%s`; %d retraction site(s) clear it%s' % (guard_field, len(groups), '' if not bad else ' - but %s clears only %s: after that retraction the transaction can confirm again without being noticed (splice_locked / channel_ready never sent although the transaction is buried)' % (bad[0][0], sorted(bad[0][1]))), len(groups), where=F.where(cfn)))
+	import C12
+	n = 0
+	for r in C12.r12b(F):
+		if ('FundingScope' in r.key and 'ln/channel' in (r.where or 'ln/channel')) or 'own-body-coverage' in r.key or 'coverage:FundingScope' in r.key or 'coverage:ChannelContext' in r.key:
+			r.rule = '11.h'
+			out.append(r)
+			n += 1
+	if n < 2:
+		out.append(Result('11.h', False, 'anchor:funding-scope-coverage', 'the field coverage results for the channel FundingScope were not found'))
+	return out
+
 RULES = [
 	('11.a', 'Listen and Confirm entry points of monitor, chain monitor and manager funnel into the same internal routines', r11a),
 	('11.b', 'irrevocable conclusions only inside the loop over events past the confirmation threshold', r11b),
@@ -396,5 +448,6 @@ RULES = [
 	('11.d', 'retraction: exactly the events above the new tip are dropped; claim handler uses the complementary boundary and the same height', r11d),
 	('11.e', 'idempotent re-delivery: already-seen transactions are skipped, the best block only advances', r11e),
 	('11.g', 'claims carry the height of the confirming block; funding-reorg bookkeeping is cleared independently of channel state', r11g),
+	('11.h', 'manager side: the re-confirmation test reads a field cleared at every retraction site; confirmation bookkeeping is written by the channel writer itself', r11h),
 	('11.f', 'manager side: channel_ready needs height - conf_height + 1 >= minimum_depth; funding reorg re-evaluated', r11f),
 ]
